@@ -29,7 +29,9 @@ for pid in ids:
         "level_claimed": {"category": c["category"], "text": c["text"], "design_ref": c["design"]},
         "level_note": c["note"],
         "technique": c["technique"] + ("; guards and tables are read from path conditions over the resolved HIR (match/if-let/let-else/early "
-                                       "return/`?`/matches! alike, private same-file helpers inlined, locals resolved to their definitions)"
+                                       "return/`?`/matches! alike, private same-file helpers inlined, locals resolved to their definitions); thorough tier re-runs "
+                                       "the rules on renamed and on mechanically rewritten facts (rules/renamefuzz.py, rules/shapefuzz.py) and on the "
+                                       "property's mutants"
                                        if pid in SEM_BASED else ""),
     })
 m = {
